@@ -281,10 +281,9 @@ Proof.
     eapply Forall_impl; [|exact H]. intros [cond cont chs] [Hc Hch]. split; [exact Hc|].
     eapply Forall_impl; [|exact Hch]. intros c0. apply PC_FC.
   - destruct (String.eqb v "" || String.eqb c ""); [apply FrameM_ret|].
-    apply FrameM_catch; [|intros; apply FrameM_raise].
     apply FrameM_bind; [apply FrameM_ctx_now|]. intros ctx.
-    apply FrameM_bind; [apply FrameM_lift|]. intros cv.
-    apply FrameM_bind; [apply FrameM_lift|]. intros items.
+    destruct (match o_eval orc ctx c with Ok c0 => py_iter c0 | Exc e => Exc e end) as [items|e];
+      [|apply FrameM_ret].
     apply FrameM_render_loop_items; [assumption|].
     eapply Forall_impl; [|exact H0]. intros c0. apply PC_FC.
   - apply FrameM_ret.
